@@ -249,7 +249,8 @@ impl Gen {
     fn views(&mut self, n: usize) -> Vec<View> {
         let key = self.arr::<32>();
         let nonce = self.arr::<16>();
-        let cl = self.rng.below(4) as usize;
+        // mostly short contexts; one unit in seven uses a context of 260-299 bytes (mismatch units alter its last byte)
+        let cl = if self.rng.below(7) == 0 { 260 + self.rng.below(40) as usize } else { self.rng.below(4) as usize };
         let ctx = self.rng.bytes(cl);
         (0..n).map(|id| View { key, ctx: ctx.clone(), nonce, id, dec_id: id }).collect()
     }
